@@ -138,3 +138,7 @@ def check(prog: Program, rep):
     rep.rule("C16.R5", "node-weighted input: expansion scheme, attribute handling (missing => ignored, present incl. 0 => weighted)", floor=12)
     from rules.common import node_mode_plumbing
     node_mode_plumbing(prog, rep, "C16.R5")
+    rep.rule("C16.R6", "additional starts / ends are exempt from conservation because they are wired to the synthetic source / sink by the documented rule (C10.R4)", floor=2)
+    from rules.c10 import augmentation_guards
+    from rules.common import RuleProxy
+    augmentation_guards(prog, RuleProxy(rep, "C16.R6"), "C10.R4")
